@@ -196,6 +196,8 @@ static void rec(pop *h, int n)
         judge(h, n, 0, 32, 32, 32, "default");
         unsigned ncalls = sysrand_calls; if (ncalls > 6) ncalls = 6;
         for (uint64_t m = 1; m < ((uint64_t)1 << ncalls); m++) { char p[32]; snprintf(p, sizeof p, "entropy-fail-mask=%llx", (unsigned long long)m); judge(h, n, m, 32, 32, 32, p); }
+        /* one failing call with other error numbers (a source that fails once and then works is healthy again for the later calls) */
+        { static const int en[] = {ENOSYS, EPERM, EINVAL, EFAULT}; for (unsigned k = 0; k < ncalls; k++) for (int e = 0; e < 4; e++) { char p[48]; snprintf(p, sizeof p, "entropy-fail-call=%u,errno=%d", k, en[e]); sysrand_fail_errno = en[e]; judge(h, n, (uint64_t)1 << k, 32, 32, 32, p); sysrand_fail_errno = EIO; } }
         if (hasst) {
             for (st_geom = 1; st_geom < 4; st_geom++) { char p[32]; snprintf(p, sizeof p, "storage-geometry=%d", st_geom); judge(h, n, 0, st_geom == 3 ? 4096 : 64, 32, 32, p); } st_geom = 0;
             static const int rets[] = {-1, 0, 31, 33};
